@@ -36,7 +36,8 @@ def _mutate(name):
     if name == 'no_global_merge':
         new = code.replace('template("econtext.update(rcontext)")', '[]')
     elif name == 'fill_left_behind':
-        new = code.replace('template("econtext.update(rcontext)") +\n            cleanup', 'template("econtext.update(rcontext)")')
+        import re
+        new = re.sub(r'template\("econtext.update\(rcontext\)"\) \+\n\s+cleanup', 'template("econtext.update(rcontext)")', code)
     elif name == 'extend_drops_appendleft':
         new = code.replace('orelse=append,', 'orelse=[],')
     elif name == 'slot_default_when_filled':
